@@ -23,6 +23,8 @@ var (
 	alphaL2  = []string{"k", "pattern", " ", "\n", "\t", "\"", "'", "\\n", "\\q", "\\\\", "+", ";", "{", "}", "//c\n", "/*c*/", "é", "/*c\né*/", "'y\né'"}
 	alphaL2s = []string{"'x'", "/*c*/", "\"", "a", " ", "    ", "\t", "\n", "+", "\\t", "\\q", "é", "\r\n"}
 	alphaL1t = []string{"a", " ", "\n", "\"", "'", "\\", "/", "*", ";", "{"}
+	// bytes that are not text: NUL, a lone continuation byte, a truncated lead byte, form feed, DEL
+	alphaL1b = []string{"a", " ", "\n", "\"", ";", "{", "}", "\\", "\x00", "\x80", "\xc3", "\f", "\x7f"}
 )
 
 // Spaces returns the spaces of a tier.
@@ -35,6 +37,7 @@ func Spaces(tier string) []Space {
 			{"L2s-k", alphaL2s, "k ", ";", 7, 2},
 			{"L2s-pattern", alphaL2s, "pattern ", ";", 6, 2},
 			{"L2s-tab", alphaL2s, "\tk ", ";", 6, 2},
+			{"L1b", alphaL1b, "", "", 6, 2},
 		}
 	}
 	return []Space{
@@ -43,6 +46,7 @@ func Spaces(tier string) []Space {
 		{"L2s-k", alphaL2s, "k ", ";", 6, 2},
 		{"L2s-pattern", alphaL2s, "pattern ", ";", 5, 2},
 		{"L2s-tab", alphaL2s, "\tk ", ";", 5, 2},
+		{"L1b", alphaL1b, "", "", 5, 2},
 	}
 }
 
